@@ -57,6 +57,15 @@ func NewKafkaMdm(key string, matcher matcher.Matcher, topic, codec, schemasFile,
 	if err != nil {
 		return nil, err
 	}
+	if len(brokers) == 0 {
+		return nil, fmt.Errorf("kafkaMdm %q: need at least 1 broker", key)
+	}
+	if bufSize < 0 || flushMaxNum < 0 {
+		return nil, fmt.Errorf("kafkaMdm %q: bufSize and flushMaxNum can not be negative", key)
+	}
+	if flushMaxWait <= 0 {
+		return nil, fmt.Errorf("kafkaMdm %q: flushMaxWait must be > 0", key)
+	}
 
 	cleanAddr := util.AddrToPath(brokers[0])
 
